@@ -21,7 +21,7 @@ ASSUMPTIONS = ["models/membank.py: lockable locations are writeable only while t
                "hold exactly the requested bytes"]
 EXHAUSTIVE = {"quick": False, "thorough": False}
 REQUIRED_ANCHORS = {"all": ["writes_ok", "refused_readonly", "length_rejected", "faults_injected", "must_raise_cases",
-                            "unit_variants", "relock_checked"]}
+                            "unit_variants", "relock_checked", "history_writes", "first_use_writes"]}
 SHARD_TIMEOUT = {"quick": 600, "thorough": 3000}
 BANKS = ["0", "0L", "1", "202", "203", "204", "205", "206", "207"]
 DOCUMENTED = ("MemoryLocationNotWriteable", "MemoryWriteFailure", "ResponseError")
@@ -30,7 +30,9 @@ DOCUMENTED = ("MemoryLocationNotWriteable", "MemoryWriteFailure", "ResponseError
 def plan(tier, seed):
     reps = 1 if tier == "quick" else 8
     return [{"bank": b, "rep": rep, "datas": 5 if tier == "quick" else 8} for b in BANKS for rep in range(reps)] + \
-        [{"bank": "synthetic"}]
+        [{"bank": "synthetic"}] + \
+        [{"bank": "first-use", "first": f} for f in ({"force_unlock": True}, {"allow_short_write": True},
+                                                     {"ignore_feedback": True}, {})]
 
 
 def _mods():
@@ -279,7 +281,116 @@ def run_bank(desc, tier, seed, res):
                                   "with every other location unchanged", vw)
                 elif L.BANKS[bankkey][1] and bank7.image[2] == 0x55:
                     res.violation("C10/write/left-unlocked", f"{name}.write left the bank unlocked", vw)
+    run_histories(desc, tier, seed, res, bankkey, values)
     res.sample({"bank": bankkey, "values": [v[0] for v in values][:5], "writable": sum(1 for v in values if v[2].writable)})
+
+
+def run_histories(desc, tier, seed, res, bankkey, values):
+    """One unit, a history of writes with every option combination (short writes with interior NULs, force_unlock,
+    ignore_feedback) over all writable values of the bank: each normal return is compared with a byte-exact image -
+    the lock byte included: a write that needs no unlocking must leave it exactly as it was."""
+    from models.bus import Bus
+    writable = [(n, c, row) for n, c, row in values if row.writable and n != "LockByte"]
+    if not writable:
+        return
+    has_lock = L.BANKS[bankkey][1]
+    fams = ["gear", "device", "int"]
+    n_hist = 6 if tier == "quick" else 24
+    for h in range(n_hist):
+        r = rng(seed, "C10", "hist", bankkey, desc["rep"], h)
+        family = fams[(h + desc["rep"]) % 3]
+        lock0 = r.choice([0xFF, 0x55, 0x00, 0xAA, 0x54, 0x3C])
+        unit, other, bank, ob, addr = make_unit(r, bankkey, family, lock0)
+        trail = []
+        for step in range(8 if tier == "quick" else 14):
+            name, cls, row = r.choice(writable)
+            w = row.width
+            short = r.random() < 0.4
+            force = r.random() < 0.3
+            ign = r.random() < 0.15
+            n = r.randint(1, w) if short else w
+            raw = bytearray(r.getrandbits(8) for _ in range(n))
+            if short and n > 1 and r.random() < 0.7:
+                raw[r.randrange(n - 1)] = 0            # an interior NUL: the bytes after it are still part of the request
+            raw = bytes(raw)
+            if has_lock and r.random() < 0.25:
+                bank.image[2] = r.choice([0xFF, 0x55, 0x00, 0xAA, 0x3C])   # someone else locked / unlocked the bank meanwhile
+            kw = {}
+            if short:
+                kw["allow_short_write"] = True
+            if force:
+                kw["force_unlock"] = True
+            if ign:
+                kw["ignore_feedback"] = True
+            trail.append((name, raw.hex(), sorted(kw)))
+            if not checked_write(res, unit, other, bank, ob, addr, name, cls, row, raw, kw, has_lock,
+                                 {"bank": bankkey, "family": family, "history": trail[-6:]}):
+                break
+
+
+def checked_write(res, unit, other, bank, ob, addr, name, cls, row, raw, kw, has_lock, wit):
+    """One fault-free write_raw against a live unit, judged byte-exactly (lock byte included). False = stop this history."""
+    from models.bus import Bus
+    before = list(bank.image)
+    bus = Bus([unit, other], bound=800)
+    res.evaluations += 1
+    res.distinct += 1
+    res.hit("history_writes")
+    out = attempt(bus, cls.write_raw(addr, raw, **kw))
+    wit = {**wit, "lock_byte_before": before[2]}
+    lockable = row.access == "nvm_rw_l"
+    if out[0] == "exc":
+        res.violation(f"C10/history/raised/{type(out[1]).__name__}",
+                      f"{name}: fault-free write_raw({raw.hex()}, {kw}) raised {type(out[1]).__name__}: {out[1]}",
+                      {**wit, "tb": short_tb(out[1])})
+        return False
+    want = list(before)
+    for k, b in enumerate(raw):
+        want[row.first + k] = b
+    now = list(bank.image)
+    touches_lock = has_lock and (lockable or kw.get("force_unlock", False))
+    if touches_lock:
+        if now[2] == 0x55:
+            res.violation("C10/history/left-unlocked", f"{name}: write_raw(.., {kw}) left the lock byte at 0x55", wit)
+        now[2] = want[2] = None
+    if now != want:
+        diff = [(l, before[l], bank.image[l], want[l]) for l in range(255) if now[l] != want[l]]
+        key = "lock-byte-changed" if (diff and diff[0][0] == 2 and len(diff) == 1) else "memory-differs"
+        res.violation(f"C10/history/{key}", f"{name}: after write_raw({raw.hex()}, {kw}) returned normally memory differs at "
+                      f"{diff[:6]} (loc, before, after, expected)", wit)
+        return False
+    if ob.writes:
+        res.violation("C10/write/other-unit-written", f"{name}: a unit that was not addressed was written", wit)
+        return False
+    return True
+
+
+def run_first_use(desc, tier, seed, res):
+    """Fresh process: the very first write of every writable value uses the given options, then plain writes follow
+    (anything the library remembers from an earlier call must not leak into a later one)."""
+    _mods()
+    first_kw = dict(desc["first"])
+    for bankkey in BANKS:
+        bank_obj, values = values_of(bankkey)
+        has_lock = L.BANKS[bankkey][1]
+        for vi, (name, cls, row) in enumerate(values):
+            if not row.writable or name == "LockByte":
+                continue
+            r = rng(seed, "C10", "first", bankkey, name, sorted(first_kw))
+            unit, other, bank, ob, addr = make_unit(r, bankkey, ["gear", "device", "int"][vi % 3], 0xAA)
+            w = row.width
+            trail = []
+            seq = [first_kw, {}, {"allow_short_write": True}, {"force_unlock": True}, {}, {"ignore_feedback": True}, {}]
+            for kw in seq:
+                n = r.randint(1, w) if kw.get("allow_short_write") else w
+                raw = bytes(r.getrandbits(8) for _ in range(n))
+                if has_lock:
+                    bank.image[2] = r.choice([0xAA, 0x00, 0x3C, 0x55, 0xFF])
+                trail.append((name, raw.hex(), sorted(kw)))
+                res.hit("first_use_writes")
+                if not checked_write(res, unit, other, bank, ob, addr, name, cls, row, raw, dict(kw), has_lock,
+                                     {"bank": bankkey, "history": list(trail), "first_call_options": first_kw}):
+                    break
 
 
 def run_synthetic(seed, res):
@@ -351,6 +462,8 @@ def run_shard(desc, tier, seed):
         return res
     if desc["bank"] == "synthetic":
         run_synthetic(seed, res)
+    elif desc["bank"] == "first-use":
+        run_first_use(desc, tier, seed, res)
     else:
         run_bank(desc, tier, seed, res)
     return res
